@@ -14,6 +14,22 @@ CHECKS = {
         design_ref='DESIGN.md §5 C15',
         note='Trusts CPython str/bytes; prefix-freeness + pair round trip are taken to imply all strings.',
         technique='runtime monitoring: exhaustive input enumeration with identity oracle on the real converters'),
+    'C17': dict(
+        category='exploration',
+        text='History monitor: random sequences of real accessor calls are mirrored on an independent shadow memory; after every call all five '
+             'regions are compared byte-for-byte and every getter result with the model. Sampling of histories, biased to the documented edges; '
+             'the right level because the property is about arbitrary call sequences, which only execution can exercise.',
+        design_ref='DESIGN.md §5 C17',
+        note='Trusted base: vf/memmodel.py (my reading of the docstrings and PICO-8 memory map); out-of-contract arguments are not generated.',
+        technique='runtime monitoring: history monitor against a shadow-memory reference model'),
+    'C18': dict(
+        category='exploration',
+        text='History monitor on Game.write_cart_data: every write is mirrored on a shadow bytearray and all regions (content and length) are compared '
+             'after each call; the +-2 neighbourhood of all six region boundaries is enumerated completely (351 pairs), random pairs, spans, rejected '
+             'writes and write sequences are sampled.',
+        design_ref='DESIGN.md §5 C18',
+        note='Trusted base: the PICO-8 memory map constants in vf/refcodec.py.',
+        technique='runtime monitoring: history monitor against a shadow-memory reference model, boundary enumeration'),
 }
 
 NOT_BUILT = 'check not built yet in this session (design in DESIGN.md §5); not claimed until its monitor runs silent on the unchanged tree'
